@@ -47,6 +47,7 @@ def plan(tier, seed):
     cases.append({"kind": "prod"})
     cases.append({"kind": "abs", "seed": seed})
     cases.append({"kind": "names"})
+    cases.append({"kind": "types"})
     # real models
     if tier == "thorough":
         cases.append({"kind": "dump", "file": "HARD.dump.tar.gz", "gene": "cyp2d6"})
@@ -165,7 +166,7 @@ def _run_abs(case, res):
     for k in range(1, 5):
         for signs in itertools.product((-1, 0, 1), repeat=k):
             mags = [round(rng.uniform(0.01, 7), 2) for _ in range(k)]
-            ws = [rng.choice([1, 1, 2.0, 0.5]) for _ in range(k)]
+            ws = [rng.choice([1, 1, 2.0, 0.5, 0]) for _ in range(k)]
             m = lpi.model("AldyAbs", "any")
             vs = [m.addVar(lb=-m.INF, ub=m.INF, name=f"E_{i}") for i in range(k)]
             for v, s, mg in zip(vs, signs, mags):
@@ -208,6 +209,37 @@ def _run_names(res):
         res.check("names_identify", isinstance(ys, list) and len(set(ys)) == len(g),
                   "enumeration over variables with colliding names does not give one solution per variable",
                   given=g, got=repr(ys))
+
+
+def _run_types(res):
+    """Typed read-back and binary detection: only binaries (and integers bounded [0, 1]) read back as bool and
+    are listed in solutions; continuous variables never, whatever their bounds."""
+    import aldy.lpinterface as lpi
+
+    for lo, hi, val in ((0, 1, 0.7), (0, 1, 1.0), (0, 1, 0.0), (0, 5, 3.0), (-2, 2, -1.5), (0, 1, 0.5)):
+        m = lpi.model("AldyTypes", "any")
+        b = m.addVar(vtype="B", name="BIN")
+        i5 = m.addVar(vtype="I", lb=0, ub=5, name="INT5")
+        c = m.addVar(lb=lo, ub=hi, name="CONT")
+        m.addConstr(c <= val, name="FIXC")
+        m.addConstr(c >= val, name="FIXC")
+        m.addConstr(b >= 1, name="FIXB")
+        m.addConstr(i5 >= 3, name="FIXI")
+        m.addConstr(i5 <= 3, name="FIXI")
+        m.setObjective(1 * b + 1 * i5 + 1 * c)
+        m.solve()
+        vb, vi, vc = m.getValue(b), m.getValue(i5), m.getValue(c)
+        isb = [m.is_binary(b), m.is_binary(i5), m.is_binary(c)]
+        ys = list(m.solutions(0))  # (afterwards the model holds the exclusion cut and no values)
+        res.check("typed_readback", vb is True and vi == 3 and not isinstance(vi, bool)
+                  and not isinstance(vc, bool) and abs(vc - val) < 1e-6,
+                  "typed read-back of variable values is wrong", bounds=[lo, hi], value=val,
+                  got=[repr(vb), repr(vi), repr(vc)])
+        res.check("binary_detection", isb == [True, False, False],
+                  "binary detection misclassifies a variable", bounds=[lo, hi], value=val, got=isb)
+        res.check("binary_detection", len(ys) == 1 and tuple(ys[0][2]) == ("BIN",),
+                  "solutions() lists something other than the active binaries", yielded=[list(y[2]) for y in ys],
+                  bounds=[lo, hi], value=val)
 
 
 def _audit_all(res, label, max_models=None):
@@ -263,6 +295,9 @@ def run(case):
     elif kind == "names":
         _run_names(res)
         res.fp, res.nontrivial = "names", True
+    elif kind == "types":
+        _run_types(res)
+        res.fp, res.nontrivial = "types", True
     elif kind in ("dump", "bam", "bam38"):
         from aldy.genotype import genotype
 
